@@ -25,13 +25,32 @@ from . import c16_vcdparse as VP
 
 PID = 'C16'
 DRIVERS = ['vcd']
-MODULE = 'PymtlVerif.Props.C16'
+MODULE = ['PymtlVerif.Props.C16', 'PymtlVerif.Props.C16Gen']
 THEOREMS = ['PV.C16.' + t for t in [
   'replay_dump', 'replay_dump_zero_init', 'replay_signal', 'shared_symbol',
   'clock_edges', 'clock_once_per_cycle',
   'vcd_str_parses', 'vcd_str_injective', 'vcd_str_length', 'symbol_injective', 'textwave_record',
   'quirk_needs_equal_defaults']]
+# generated-from-source = model (Props/C16Gen.lean; Gen/VcdSymGen.lean is regenerated from /repo by pregen below)
+GEN_THEOREMS = ['PV.C16Gen.' + t for t in [
+  'gen_symbol_eq', 'gen_symbol_injective', 'symbol_injective', 'symbol_chars_printable', 'symbol_nonempty', 'symbol_text']]
+THEOREMS = THEOREMS + GEN_THEOREMS
+THEOREM_MODULE = {t: 'PymtlVerif.Props.C16Gen' for t in GEN_THEOREMS}
+
+def pregen(ck):
+  """translator-based tie: regenerate lean/PymtlVerif/Gen/VcdSymGen.lean from `_gen_vcd_symbol` of the current
+  VcdGenerationPass.py (written only if its content changed); Props/C16Gen.lean then re-proves generated = model"""
+  path = os.path.join(leanio.VERIF, 'tools', 'py2lean_vcdsym.py')
+  spec = importlib.util.spec_from_file_location('py2lean_vcdsym', path)
+  mod = importlib.util.module_from_spec(spec); spec.loader.exec_module(mod)
+  return mod.pregen()
+
 TRUSTED = [
+  'identifier codes: tools/py2lean_vcdsym.py translates the Python AST of `_gen_vcd_symbol` (generator -> step function over Python-int '
+  'semantics of Gen/PyInt.lean, strings as character-code lists of Gen/PyStr.lean) into Gen/VcdSymGen.lean before every build; '
+  'gen_symbol_eq proves, for every n, that the n-th code it yields is Model/VCD.symCodes n (= the text of VCD.symbol n). Trusted there: the '
+  'translator (subset checked, anything else refuses), PyInt/PyStr as the meaning of // % divmod, s[i], +, chr/range/join; the first 20000 '
+  'codes of the real generator (its code object, taken out of make_vcd_func) are also compared with the model on every run',
   'Model/VCD.lean follows VcdGenerationPass.make_vcd_func/dump_vcd_inner: net table, symbol generator, header values, '
   'last_values indexed by position in net_details, clock lines; the reader (stateAt/replay) is the model\'s own definition of '
   '"reading a VCD file" (cycle t = time 100t, value holds until changed) and is compared with the Python reader of this check on every file',
@@ -599,8 +618,38 @@ def flush(ck, pending):
     k += len(reqs)
   pending.clear()
 
+def check_symbols(ck, n=20000):
+  """the first n identifier codes of the real generator (the code object nested in make_vcd_func) vs Model/VCD.symCodes;
+  direct oracle: pairwise distinct, non-empty, printable non-blank characters only"""
+  import builtins, types
+  from pymtl3.passes.tracing.VcdGenerationPass import VcdGenerationPass
+  codes = [c for c in VcdGenerationPass.make_vcd_func.__code__.co_consts
+           if isinstance(c, types.CodeType) and c.co_name == '_gen_vcd_symbol']
+  if len(codes) != 1 or codes[0].co_freevars:
+    raise InfraError('C16: _gen_vcd_symbol is not a closure-free nested function of make_vcd_func any more')
+  gen = types.FunctionType(codes[0], {'__builtins__': builtins})()
+  real = [next(gen) for _ in range(n)]
+  case = {'symbols': n}
+  ck.count(case, True)
+  seen = {}
+  for i, c in enumerate(real):
+    if not isinstance(c, str) or not c or any(not (33 <= ord(ch) <= 126) for ch in c):
+      ck.violation('symbol-not-a-token', {'kind': 'symbol-not-a-token'}, case, {'net': i, 'code': repr(c)}); break
+    if c in seen:
+      ck.violation('symbol-collision', {'kind': 'symbol-collision'}, case,
+                   {'nets': [seen[c], i], 'code': c, 'oracle': 'two nets with one identifier code cannot be told apart by any VCD reader'})
+      break
+    seen[c] = i
+  rep = leanio.parse_sexp(ck.drv('vcd').batch([leanio.line('vcd', 'symbols', 0, n)])[0])[0]
+  model = [''.join(chr(int(x)) for x in codes_) for codes_ in rep]
+  if model != real:
+    k = next((i for i, (a, b) in enumerate(zip(model, real)) if a != b), min(len(model), len(real)))
+    ck.disagreement('Model/VCD.symCodes == _gen_vcd_symbol', {'symbols': n, 'first_difference_at_net': k}, model[k:k + 3], real[k:k + 3])
+  ck.extra_cov['identifier_codes_compared'] = n
+
 def run(ck):
   rng = ck.rng
+  check_symbols(ck)
   total = 340 if ck.tier == 'quick' else 12000
   budget = 45 if ck.tier == 'quick' else 480
   pending = []
